@@ -538,6 +538,9 @@ def m_isinstance(x, T):
                 return True
         return False
     if isinstance(T, ClassModel):
+        ic = getattr(T, 'instancecheck', None)
+        if ic is not None:
+            return truth(ic(x))
         if isinstance(x, SV):
             if x.known_class() is not None:
                 return T.name in x.T.ancestors(x.cls)
